@@ -30,4 +30,4 @@ check_case, run, replay = gfi_hist.make_prop(CFG, CHECKS, kinds=TOP, nontrivial=
 def probes(ctx):
     from vpbt import gfi_probes
 
-    gfi_probes.run_probes(ctx, ['switch_index_out_of_range', 'switch_retdiff_tangent_mismatch'])
+    gfi_probes.run_probes(ctx, ['switch_index_out_of_range', 'switch_retdiff_tangent_mismatch', 'assess_empty_sample'])
